@@ -109,6 +109,7 @@ func checkProperty(id, tier, repo string, seed int) int {
 	}
 	res := mergeResults(pd, ctxs)
 	if tier == "thorough" {
+		addCallGraphCrossCheck(res, repo)
 		addSelfTest(res, id, repo)
 	}
 	return emit(res, tier, seed, start, true)
